@@ -1,4 +1,4 @@
-import PydraModel.Sched.Progress
+import PydraModel.Sched.Idle
 import PydraModel.Props.C14
 /-
 C18 — Every submission terminates.
@@ -17,8 +17,11 @@ What is proved, and what is not:
   was written and the job was never seen running, the loop neither awaits, nor dispatches, nor reaches the stall
   detector — it spins forever (`C18_lost_result_livelock`).  The termination statements are therefore `_partial`:
   they assume fault-free schedules (no `vanish` move).
-* Not proved (stated in the report): that a *fault-free* run cannot contain infinitely many consecutive iterations
-  that await nothing.  The correspondence check exercises it; the model-level argument is sketched in DESIGN §6 C18.
+* In a fault-free run the environment can always complete a pending future (`C18_environment_can_complete`), i.e. the
+  loop is never blocked for good in `asyncio.wait`; an iteration that awaits nothing ends the submission, dispatches
+  a job or starts a node (`C18_idle_round_progress`); hence every fault-free run of an acyclic workflow performs at most
+  `2 * (jobs dispatched) + (nodes) + 2` iterations and a longer schedule finds the submission ended
+  (`C18_fault_free_bound`, `C18_fault_free_terminates`) — each ending with outputs or an error (`C18_partial`).
 -/
 namespace PydraModel.Sched
 open PydraModel.Graph
@@ -287,6 +290,157 @@ theorem C18_partial {wf : Wf} {k : Option Nat} {sorted : List NodeId} (hw : Well
     o = (if st.errors = [] then Outcome.success else Outcome.failed st.errors) ∧
     (∀ c, c ∈ st.errors ↔ st.w c = .err) :=
   ⟨(C14_full hw hac sched hff hend).2.2.2.2, (C14_full hw hac sched hff hend).2.2.2.1⟩
+
+/-- C18 (no deadlock between loop and environment): whenever the loop awaits a future in a fault-free run, the
+    environment has moves that complete one — a body that has not started can start, a running body can finish,
+    a finished body's future can complete — so the waiting iteration can always be ended (and then
+    `C18_round_completes` applies) -/
+theorem C18_environment_can_complete {wf : Wf} {k : Option Nat} {sorted : List NodeId} (hw : WellFormed wf sorted)
+    (sched : List (List Ev)) (hff : FaultFree sched) {st : St} (h : runAsync wf k sorted sched = .cont st)
+    (hne : st.futures ≠ []) :
+    ∃ moves, (∀ e, e ∈ moves → noVanish e) ∧ ∃ st', (round wf k sorted st moves).state? = some st' := by
+  have hstate : (runAsync wf k sorted sched).state? = some st := by rw [h]; rfl
+  have hf := li_runAsync (ff_loopInv wf k sorted) hw.topo ff_init sched hff hstate
+  have hs := sinv_runAsync hw.topo sched hstate
+  obtain ⟨c, hc⟩ := List.exists_mem_of_ne_nil _ hne
+  have hcont : st.futures.contains c = true := by simpa using hc
+  have hne' : st.futures.isEmpty = false := by simpa [List.isEmpty_iff] using hne
+  -- the moves that bring job `c` to completion from wherever it is
+  have hlenE : ∀ (s : St), s.futures = st.futures → (s.futures.erase c).length < st.futures.length := by
+    intro s hs'
+    rw [hs', List.length_erase_of_mem hc]
+    have : 0 < st.futures.length := List.length_pos_of_mem hc
+    omega
+  -- completing the future of a finished job
+  have hcomplete : ∀ (s : St), s.futures = st.futures → (s.w c = .ok ∨ s.w c = .err) →
+      ∃ s', applyEv s (.complete c) = some s' ∧ s'.futures.length < st.futures.length := by
+    intro s hs' hfin
+    have hcs : s.futures.contains c = true := by rw [hs']; exact hcont
+    refine ⟨{ s with futures := s.futures.erase c, errors := if s.w c == .err then s.errors ++ [c] else s.errors }, ?_, hlenE s hs'⟩
+    simp only [applyEv, hcs, Bool.true_and]
+    rcases hfin with h1 | h1 <;> simp [h1]
+  have hfinish : ∀ (s : St), s.futures = st.futures → s.w c = .locked →
+      ∃ s', applyEv s (.finishOk c) = some s' ∧ s'.futures = st.futures ∧ s'.w c = .ok := by
+    intro s hs' hl
+    exact ⟨{ s with w := setW s.w c .ok }, by simp [applyEv, hl], hs', by simp [setW_same]⟩
+  have key : ∃ moves st1, (∀ e, e ∈ moves → noVanish e) ∧ applyEvs st moves = some st1 ∧
+      st1.futures.length < st.futures.length := by
+    rcases truth_cases (st.w c) with t | t | t | t | t
+    · -- not started yet: start, finish, complete
+      have h1 : applyEv st (.acquire c) = some { st with w := setW st.w c .locked } := by
+        simp [applyEv, hc, t]
+      obtain ⟨s2, h2, f2, w2⟩ := hfinish { st with w := setW st.w c .locked } rfl (by simp [setW_same])
+      obtain ⟨s3, h3, l3⟩ := hcomplete s2 f2 (Or.inl w2)
+      refine ⟨[.acquire c, .finishOk c, .complete c], s3,
+        by intro e he; simp at he; rcases he with rfl | rfl | rfl <;> trivial, ?_, l3⟩
+      simp only [applyEvs, h1, h2, h3]
+    · obtain ⟨s2, h2, f2, w2⟩ := hfinish st rfl t
+      obtain ⟨s3, h3, l3⟩ := hcomplete s2 f2 (Or.inl w2)
+      refine ⟨[.finishOk c, .complete c], s3, by intro e he; simp at he; rcases he with rfl | rfl <;> trivial, ?_, l3⟩
+      simp only [applyEvs, h2, h3]
+    · exact absurd t (hf.noDead c)
+    · obtain ⟨s3, h3, l3⟩ := hcomplete st rfl (Or.inl t)
+      exact ⟨[.complete c], s3, by intro e he; simp at he; subst he; trivial, by simp only [applyEvs, h3], l3⟩
+    · obtain ⟨s3, h3, l3⟩ := hcomplete st rfl (Or.inr t)
+      exact ⟨[.complete c], s3, by intro e he; simp at he; subst he; trivial, by simp only [applyEvs, h3], l3⟩
+  have hmne : ∀ moves st1, applyEvs st moves = some st1 → st1.futures.length < st.futures.length → moves ≠ [] := by
+    intro moves st1 ha hl hm
+    subst hm
+    simp only [applyEvs, Option.some.injEq] at ha
+    subst ha
+    omega
+  obtain ⟨moves, st1, hm, happ, hlt⟩ := key
+  refine ⟨moves, hm, ?_⟩
+  unfold round
+  simp only [hne', Bool.false_and, Bool.false_eq_true, if_false, happ, Bool.not_false, Bool.true_and]
+  have : (st1.futures.length == st.futures.length) = false := by
+    simp only [beq_eq_false_iff_ne, ne_eq]; omega
+  simp only [this, Bool.false_eq_true, if_false]
+  -- the loop head always hands on a state
+  cases hap : afterPoll wf k sorted (doPoll wf k sorted st1) with
+  | cont s => exact ⟨s, rfl⟩
+  | done o s => exact ⟨s, rfl⟩
+  | bad =>
+    exfalso
+    unfold afterPoll at hap
+    split at hap
+    · exact absurd hap (by simp)
+    · simp only at hap
+      split at hap
+      · exact absurd hap (by simp)
+      · split at hap <;> exact absurd hap (by simp)
+
+/-- C18 (idle iterations), fault-free runs: an iteration that awaits nothing ends the submission, or dispatches a
+    job, or starts (or marks unrunnable) a node that had not been started -/
+theorem C18_idle_round_progress {wf : Wf} {k : Option Nat} {sorted : List NodeId} (hw : WellFormed wf sorted)
+    (hk : k ≠ some 0) (sched : List (List Ev)) (hff : FaultFree sched) {st : St}
+    (h : runAsync wf k sorted sched = .cont st) (he : st.futures = []) :
+    (∃ o st', round wf k sorted st [] = .done o st') ∨
+    ∃ st', round wf k sorted st [] = .cont st' ∧
+      (st'.futures ≠ [] ∨ ∃ n, n ∈ sorted ∧ (st.ns.get n).blk = none ∧ (st'.ns.get n).blk ≠ none) := by
+  have hstate : (runAsync wf k sorted sched).state? = some st := by rw [h]; rfl
+  exact idle_round_progress hw hk (sinv_runAsync hw.topo sched hstate)
+    (li_runAsync (ff_loopInv wf k sorted) hw.topo ff_init sched hff hstate) he
+
+/-- C18, PARTIAL (hypothesis `FaultFree`) — THE BOUND: a fault-free run of a workflow that `sorting` accepts
+    performs at most `2 * (jobs dispatched) + (nodes) + 2` iterations of the loop, whatever the schedule.
+    (Every iteration increases the potential `2 * completed futures + started nodes + [something pending]`.) -/
+theorem C18_fault_free_bound {wf : Wf} {k : Option Nat} {sorted : List NodeId} (hw : WellFormed wf sorted)
+    (hk : k ≠ some 0) (sched : List (List Ev)) (hff : FaultFree sched) {st' : St}
+    (h : (runAsync wf k sorted sched).state? = some st') :
+    roundsRun wf k sorted (start wf k sorted (fun _ => .idle)) sched ≤ 2 * st'.futured.length + sorted.length + 2 := by
+  have hs' := sinv_runAsync hw.topo sched h
+  have hp := potential_le sorted hs'
+  cases hs0 : start wf k sorted (fun _ => .idle) with
+  | bad => simp [roundsRun]
+  | done o s => cases sched <;> simp [roundsRun]
+  | cont st0 =>
+    have h0 : (start wf k sorted (fun _ => .idle)).state? = some st0 := by rw [hs0]; rfl
+    have hsi := sinv_start hw.topo h0
+    have hfi : FF st0 := li_afterPoll (ff_loopInv wf k sorted) hw.topo (sinv_doPoll hw.topo (sinv_init wf k))
+      ((ff_loopInv wf k sorted).poll _ (sinv_init wf k) ff_init) h0
+    have hrun : (runFrom wf k sorted (.cont st0) sched).state? = some st' := by
+      unfold runAsync at h; rw [hs0] at h; exact h
+    have := roundsRun_le hw hk sched st0 hsi hfi hff st' hrun
+    omega
+
+theorem roundsRun_of_cont {wf : Wf} {k : Option Nat} {sorted : List NodeId} : ∀ (sched : List (List Ev)) (st st' : St),
+    runFrom wf k sorted (.cont st) sched = .cont st' → roundsRun wf k sorted (.cont st) sched = sched.length
+  | [], _, _, _ => rfl
+  | mv :: rest, st, st', h => by
+    simp only [runFrom] at h
+    cases hr : round wf k sorted st mv with
+    | bad => rw [hr] at h; cases rest <;> simp [runFrom] at h
+    | done o s => rw [hr] at h; cases rest <;> simp [runFrom] at h
+    | cont s =>
+      rw [hr] at h
+      simp only [roundsRun, hr, List.length_cons]
+      rw [roundsRun_of_cont rest s st' h]; omega
+
+/-- C18, PARTIAL (hypothesis `FaultFree`) — TERMINATION: if a fault-free schedule is longer than the bound, the
+    submission has ended before the schedule is used up -/
+theorem C18_fault_free_terminates {wf : Wf} {k : Option Nat} {sorted : List NodeId} (hw : WellFormed wf sorted)
+    (hk : k ≠ some 0) (sched : List (List Ev)) (hff : FaultFree sched) {st' : St}
+    (h : (runAsync wf k sorted sched).state? = some st')
+    (hlong : 2 * st'.futured.length + sorted.length + 2 < sched.length) :
+    ∃ o, runAsync wf k sorted sched = .done o st' := by
+  have hb := C18_fault_free_bound hw hk sched hff h
+  cases hr : runAsync wf k sorted sched with
+  | bad => rw [hr] at h; simp [Step.state?] at h
+  | done o s =>
+    rw [hr] at h; simp only [Step.state?, Option.some.injEq] at h; subst h
+    exact ⟨o, rfl⟩
+  | cont s =>
+    exfalso
+    rw [hr] at h; simp only [Step.state?, Option.some.injEq] at h; subst h
+    cases hs0 : start wf k sorted (fun _ => .idle) with
+    | bad => unfold runAsync at hr; rw [hs0] at hr; cases sched <;> simp [runFrom] at hr
+    | done o s0 => unfold runAsync at hr; rw [hs0] at hr; cases sched <;> simp [runFrom] at hr
+    | cont st0 =>
+      unfold runAsync at hr; rw [hs0] at hr
+      have := roundsRun_of_cont sched st0 s hr
+      rw [hs0, this] at hb
+      omega
 
 /-- Non-vacuity: the D24 schedule is *not* fault free, the D10 schedule of C14 is. -/
 example : ¬ FaultFree [[.vanish 0]] := by
